@@ -111,7 +111,7 @@ impl Property for C02 {
         vec!["an Ok result with a closed model is legal after an edit (the catalogue may supply the name, an optional link may become None, BDL re-parents children positionally)".into()]
     }
     fn workloads(&self, tier: Tier) -> Vec<(String, u64)> {
-        vec![("real".into(), real_project_files().len() as u64), ("generated".into(), tier.pick(150, 3000)), ("real-edited".into(), tier.pick(350, 12_000)), ("generated-edited".into(), tier.pick(350, 12_000))]
+        vec![("real".into(), real_project_files().len() as u64), ("generated".into(), tier.pick(450, 3000)), ("real-edited".into(), tier.pick(1000, 12_000)), ("generated-edited".into(), tier.pick(1000, 12_000))]
     }
     fn required(&self, _tier: Tier) -> Vec<(String, u64)> {
         vec![("class:closed".into(), 300), ("class:rejected".into(), 100), ("edits:remove".into(), 150), ("edits:rename".into(), 100), ("edits:insert".into(), 10), ("generated:closed".into(), 60), ("generated-odd-names:closed".into(), 5), ("generated-odd-names:rejected".into(), 5)]
